@@ -25,7 +25,11 @@ Record iobs := mkIObs {
 
 Inductive case :=
 | CDiff (l r : list string) (o : dobs)
-| CInv (ps : list ptype) (args : list zarg) (known compiled : list Z) (o : iobs).
+| CInv (ps : list ptype) (args : list zarg) (known compiled : list Z) (o : iobs)
+(* the same invocation sent by the executor's compile to a FRESH worker: [g] is the
+   executor's graph of the earlier invocations (id, ids of the Results among its own
+   arguments), [odeps] the dependency set addInvocation recorded for this one *)
+| CDeps (g : list (Z * list Z)) (ps : list ptype) (args : list zarg) (odeps : list Z) (o : outcome Z).
 
 Definition strs_eqb := list_eqb String.eqb.
 
@@ -81,6 +85,11 @@ Definition exact (c : case) : bool :=
       (* same arguments => same slice => same task names; when the model says the
          arguments change in transit the names are free *)
       && (onames o || negb (outcome_eqb (transport Z Z zenc zdec known compiled ps args) (OArrived args)))
+  | CDeps g ps args odeps o =>
+      outcome_eqb (fresh_transport Z Z zenc zdec g ps args) o
+      && (negb (typecheck Z ps args)
+          || (forallb (fun i => memZ i odeps) (record_deps Z args)
+              && forallb (fun i => memZ i (record_deps Z args)) odeps))
   end.
 
 (* ---- the property, judged on the implementation's output alone ---- *)
@@ -144,6 +153,12 @@ Definition ok (c : case) : bool :=
   match c with
   | CDiff l r o => diff_ok l r o
   | CInv ps args known compiled o => inv_ok ps args known compiled o
+  | CDeps g ps args odeps o =>
+      (* whatever the worker lacks must be sent: the outcome is judged as if every
+         earlier invocation were compiled there, and every Result argument must be
+         a recorded dependency *)
+      inv_ok ps args (map fst g) (map fst g) (mkIObs None true o true)
+      && (negb (typecheck Z ps args) || forallb (fun i => memZ i odeps) (record_deps Z args))
   end.
 
 Definition mismatches (cs : list case) : list nat := bad_indices exact cs.
